@@ -24,7 +24,7 @@ def corpus(thorough, extra_dims=()):
         nodes, edges, by = space.explore([space.baseline(c, it) for c, it in pairs], 1, dims=dims)
         return nodes, edges
     full = [("triangle", "dx"), ("triangle", "ds"), ("triangle", "dS"), ("triangle", "dP")]
-    core = [("quadrilateral", "dx"), ("quadrilateral", "dS"), ("tetrahedron", "dx"), ("tetrahedron", "dS"), ("hexahedron", "dx"), ("prism", "ds"),
+    core = [("quadrilateral", "dx"), ("quadrilateral", "dS"), ("tetrahedron", "dx"), ("tetrahedron", "dS"), ("hexahedron", "dx"), ("hexahedron", "dS"), ("prism", "ds"),
             ("interval", "dx"), ("interval", "dS")]
     nodes, edges, _ = space.explore([space.baseline(c, it) for c, it in full], 1, dims=dims)
     saved = dict(space.DIMS)
